@@ -45,7 +45,9 @@ def warm_start(
     pstart = f.variables["particle_count"][:-1].sum()
     pcount = f.variables["particle_count"][-1]
     pend = pstart + pcount
-    pid_max = np.max(f.variables["pid"][:]) + 1
+    # A file whose records are all empty holds no pid at all
+    pid = f.variables["pid"][:]
+    pid_max = np.max(pid) + 1 if len(pid) else 0
     # Particles released but lost before they reached a record still count:
     # the particle variables (if any) are stored for all particles released so far
     pid_max = max(pid_max, len(f.dimensions["particle"]))
